@@ -257,6 +257,45 @@ def _check_case(ctx, case):
 
 
 # ------------------------------------------------------------------ coverage-guided tier (atheris)
+def check_form_over_chunked(ctx, case):
+    """A urlencoded / JSON document sent in the chunked coding and read through request.forms / request.json: it is either refused (4xx) or delivered
+    complete - never a prefix of it presented as the whole (sizes around max_memfile_size)."""
+    import json as _json
+    import ombott
+    n, buf = case['n'], case['buf']
+    if case['doc'] == 'form':
+        fields = [('f%d' % i, 'v' * 7) for i in range(max(1, n // 12))] + [('tail', 'end')]
+        body = '&'.join('%s=%s' % kv for kv in fields).encode()
+        ctype, want = 'application/x-www-form-urlencoded', dict(fields)
+    else:
+        want = {'a': 'x' * n, 'tail': 'end'}
+        body = _json.dumps(want).encode()
+        ctype = 'application/json'
+    wire, _ = encode_chunked(body, case['sizes'])
+    app = ombott.Ombott({'max_memfile_size': buf})
+    seen = {}
+
+    @app.route('/f', method='POST')
+    def h():
+        seen['v'] = dict(app.request.forms) if case['doc'] == 'form' else app.request.json
+        return 'ok'
+    r = call_app(app, make_environ('POST', '/f', stream=FragStream(wire, case.get('pattern') or []), content_length=None, headers={'Transfer-Encoding': 'chunked', 'Content-Type': ctype}))
+    if r.escaped is not None:
+        raise CheckFailure(f'exception escaped: {fmt_exc(r.escaped)}')
+    ctx.evals += 1
+    if r.code == 200:
+        if seen.get('v') != want:
+            got = seen.get('v')
+            raise CheckFailure(f'{case["doc"]} of {len(body)} bytes in the chunked coding (max_memfile_size {buf}): accepted, but delivered {len(got) if hasattr(got, "__len__") else got!r} entries / '
+                               f'keys {sorted(got)[-3:] if isinstance(got, dict) else got!r}; sent {len(want)} entries ending with "tail"')
+        ctx.count('chunked_document_delivered_complete')
+    elif not (400 <= (r.code or 0) < 500):
+        raise CheckFailure(f'{case["doc"]} of {len(body)} bytes in the chunked coding answered {r.status!r}')
+    else:
+        ctx.count('chunked_document_refused')
+    ctx.nontrivial(('doc', case['doc'], n, buf, tuple(case['sizes'][:3])))
+
+
 def fuzz_decode(data):
     """bytes -> case.  Byte 0: mode (legal encoding built by the harness encoder | raw bytes offered as a chunked body)."""
     if len(data) < 6:
@@ -320,6 +359,12 @@ def run(ctx):
                 for _ in range(2):
                     ctx.guarded(check_case, dict(base, payload=bytes(65 + i % 26 for i in range(total)), sizes=sizes, exts=[None], pattern=[], mode='legal_only'))
         ctx.count('limit_sized_payload_grid')
+        for doc in ('form', 'json'):
+            for buf in (64, 1000, 102400):
+                for n in (buf // 2, buf - 30, buf, buf + 30, 2 * buf, 3 * buf + 7):
+                    for sizes in ([33], [buf], [1000000]):
+                        ctx.guarded(check_form_over_chunked, {'form_over_chunked': True, 'doc': doc, 'n': n, 'buf': buf, 'sizes': sizes, 'pattern': []})
+        ctx.count('document_over_chunked_grid')
     n = 900 if ctx.tier == 'quick' else 6000
     ctx.hyp(_strategy(), check_case, n)
     if ctx.tier == 'thorough' and ctx.shard < 4:
@@ -329,6 +374,8 @@ def run(ctx):
 
 
 def replay(ctx, case):
+    if case.get('form_over_chunked'):
+        return check_form_over_chunked(ctx, case)
     if 'raw' in case or 'cut' in case:
         return fuzz_one(ctx, case)
     check_case(ctx, case)
